@@ -162,32 +162,45 @@ fn perform(call: &str, shared: &OpeningHours, ti: usize) -> String {
         }
         "calendar_rebuild" => {
             // holiday calendars that follow each other in memory: a context is built, asked, dropped, and another one with other
-            // holidays is built right after (the allocator hands back the freed cells). Whatever the library remembers about "the
-            // calendar" between calls must not outlive it: every answer must be the one of a fresh thread with that calendar
+            // holidays is built right after, so that the allocator hands back the very cell that was just freed (the calendars are
+            // prepared beforehand, the expression is parsed once, and the value is the last thing dropped in a round: nothing
+            // allocates between the free and the next Arc::new). Whatever the library remembers about "the calendar" between calls
+            // must not outlive it: every answer must be the one of a fresh thread with that calendar.
             use compact_calendar::CompactCalendar;
             use opening_hours::ContextHolidays;
             let day = |m: u32, d: u32| NaiveDate::from_ymd_opt(2024, m, d).unwrap();
             let sets: [Vec<NaiveDate>; 3] = [vec![day(5, 2), day(5, 3), day(12, 31)], vec![day(5, 1), day(12, 25)], vec![day(1, 1), day(4, 30), day(7, 14)]];
-            let src = "24/7 ; PH off";
-            let ask = |set: &Vec<NaiveDate>, t: NaiveDateTime| {
-                let cal: CompactCalendar = set.iter().copied().collect();
-                let oh = OpeningHours::parse(src).unwrap().with_context(Context::default().with_holidays(ContextHolidays::new(Arc::new(cal), Default::default())));
-                let ivs: Vec<_> = oh.iter_range(t, t + chrono::Duration::days(300)).take(4).collect();
-                format!("{:?} {:?}", oh.next_change(t), ivs)
-            };
-            let mut inter = Vec::new();
-            let mut isolated = Vec::new();
-            for round in 0..9usize {
-                let set = sets[[0, 1, 0, 2, 1, 2, 0, 1, 2][round]].clone();
-                let t = [dt("2024-04-29 12:00"), dt("2024-04-30 12:00"), dt("2024-12-24 08:00")][round % 3];
-                inter.push(ask(&set, t));
-                isolated.push(std::thread::spawn(move || {
-                    let cal: CompactCalendar = set.iter().copied().collect();
-                    let oh = OpeningHours::parse("24/7 ; PH off").unwrap().with_context(Context::default().with_holidays(ContextHolidays::new(Arc::new(cal), Default::default())));
-                    let ivs: Vec<_> = oh.iter_range(t, t + chrono::Duration::days(300)).take(4).collect();
-                    format!("{:?} {:?}", oh.next_change(t), ivs)
-                }).join().unwrap_or_else(|_| "PANIC".into()));
+            let plan: Vec<(Vec<NaiveDate>, NaiveDateTime)> = (0..9usize)
+                .map(|round| (sets[[0, 1, 0, 2, 1, 2, 0, 1, 2][round]].clone(), [dt("2024-04-29 12:00"), dt("2024-04-30 12:00"), dt("2024-12-24 08:00")][round % 3]))
+                .collect();
+            let base = OpeningHours::parse("24/7 ; PH off").unwrap();
+            let school: Arc<CompactCalendar> = Arc::default();
+            let mut prepared: Vec<CompactCalendar> = plan.iter().rev().map(|(set, _)| set.iter().copied().collect()).collect();
+            let mut inter: Vec<String> = Vec::with_capacity(plan.len());
+            let mut slot: Vec<String> = Vec::with_capacity(1);
+            for (_, t) in &plan {
+                let public = Arc::new(prepared.pop().unwrap());
+                let oh = base.clone().with_context(Context::default().with_holidays(ContextHolidays::new(public, school.clone())));
+                {
+                    let ivs: Vec<_> = oh.iter_range(*t, *t + chrono::Duration::days(300)).take(4).collect();
+                    slot.push(format!("{:?} {:?}", oh.next_change(*t), ivs));
+                }
+                drop(oh);
+                inter.push(slot.pop().unwrap());
             }
+            let isolated: Vec<String> = plan
+                .into_iter()
+                .map(|(set, t)| {
+                    std::thread::spawn(move || {
+                        let cal: CompactCalendar = set.iter().copied().collect();
+                        let oh = OpeningHours::parse("24/7 ; PH off").unwrap().with_context(Context::default().with_holidays(ContextHolidays::new(Arc::new(cal), Default::default())));
+                        let ivs: Vec<_> = oh.iter_range(t, t + chrono::Duration::days(300)).take(4).collect();
+                        format!("{:?} {:?}", oh.next_change(t), ivs)
+                    })
+                    .join()
+                    .unwrap_or_else(|_| "PANIC".into())
+                })
+                .collect();
             format!("{} {}", if inter == isolated { "CONSISTENT" } else { "INCONSISTENT" }, inter.join(" | "))
         }
         "coords_two_zones" => {
